@@ -25,14 +25,14 @@ import (
 )
 
 type c20Action struct {
-	Kind     string // reload | sign | sign-kdd | abort-silent | abort-tamper
-	Signers  []int  `json:",omitempty"`
-	Msg      H      `json:",omitempty"`
-	Repeat   bool   `json:",omitempty"` // reuse the previous session's signers and message
-	Reloaded bool   `json:",omitempty"` // use the reloaded copy instead of the in-memory original
+	Kind     string   // reload | sign | sign-kdd | abort-silent | abort-tamper
+	Signers  []int    `json:",omitempty"`
+	Msg      H        `json:",omitempty"`
+	Repeat   bool     `json:",omitempty"` // reuse the previous session's signers and message
+	Reloaded bool     `json:",omitempty"` // use the reloaded copy instead of the in-memory original
 	Path     []uint32 `json:",omitempty"`
-	At       int    `json:",omitempty"`
-	Who      int    `json:",omitempty"`
+	At       int      `json:",omitempty"`
+	Who      int      `json:",omitempty"`
 }
 
 type c20Case struct {
